@@ -584,18 +584,34 @@ class PteraTransformer(NodeTransformer):
         new_body = []
 
         for external in sorted(self.external):
-            new_body.extend(
-                self.make_interaction(
-                    target=ast.Name(id=external, ctx=ast.Store()),
-                    ann=None,
-                    value=ast.Subscript(
-                        value=ast.Name(id="__ptera_globals", ctx=ast.Load()),
-                        slice=ast.Index(value=ast.Constant(external)),
-                        ctx=ast.Load(),
-                    ),
-                    orig=node,
-                )
+            stmts = self.make_interaction(
+                target=ast.Name(id=external, ctx=ast.Store()),
+                ann=None,
+                value=ast.Subscript(
+                    value=ast.Name(id="__ptera_globals", ctx=ast.Load()),
+                    slice=ast.Index(value=ast.Constant(external)),
+                    ctx=ast.Load(),
+                ),
+                orig=node,
             )
+            if not self.should_instrument(external, None):
+                # Nobody can provide a value for this global: if it does not
+                # exist, leave it unbound (NameError if and when it is used)
+                # instead of binding it to the ABSENT marker.
+                stmts = [
+                    ast.If(
+                        test=ast.Compare(
+                            left=ast.Constant(external),
+                            ops=[ast.In()],
+                            comparators=[
+                                ast.Name(id="__ptera_globals", ctx=ast.Load())
+                            ],
+                        ),
+                        body=stmts,
+                        orelse=[],
+                    )
+                ]
+            new_body.extend(stmts)
 
         for fv in sorted(self.free):
             new_body.extend(
